@@ -857,14 +857,14 @@ class Models:
 
     # deque of concrete length
     def deque_append(self, ip, q, x):
-        ip.ctx.event('deque.append', id(q))
+        ip.ctx.event('deque.append', id(q), tuple(id(l) for l in ip.ctx.held))
         q.append(x)
 
     def deque_appendleft(self, ip, q, x):
         q.appendleft(x)
 
     def deque_popleft(self, ip, q):
-        ip.ctx.event('deque.popleft', id(q))
+        ip.ctx.event('deque.popleft', id(q), tuple(id(l) for l in ip.ctx.held))
         try:
             return q.popleft()
         except IndexError as ex:
